@@ -120,6 +120,10 @@ def stepLine (env : Env) (line : String) : Env × Option String :=
     match env[id]? with
     | some d => (env, some (runOp d args))
     | none => (env, some "bad-op")
+  | ["case", "-", id] =>
+    match decodeStr id with
+    | none => (env, some "bad-line")
+    | some b => (env, some (encodeStr (convertCase none b)))
   | ["case", style, id] =>
     match decodeStr id with
     | none => (env, some "bad-line")
